@@ -3,14 +3,13 @@
 From Coq Require Import List Arith NArith ZArith Extraction ExtrOcamlBasic.
 From CelloV Require Import Generated Exn.
 
-(* the machine of the working tree: both parameters re-read from the source *)
-Definition exn_mach := mrun exc_max_depth clear_active_on_catch.
-(* the two fixed variants (for the directed search and the self-description of a run) *)
+(* the machine with the nesting bound of the working tree; the flag clear_active_on_catch is
+   handed over by props/C07.py, which reads it from the same Generated.v (so that the driver still
+   builds, and the specification still runs, when the source no longer yields the flag) *)
 Definition exn_mach_clr (clr : bool) := mrun exc_max_depth clr.
 Definition exn_ref := ref_run.
 Definition exn_nesting := nesting.
 Definition exn_max := exc_max_depth.
-Definition exn_clr := clear_active_on_catch.
 Definition exn_init := st_init.
 Definition exn_depth := depth.
 
@@ -19,4 +18,4 @@ Definition exn_conv_z : Z := 0%Z.
 Definition exn_conv_n : N := 0%N.
 
 Extraction Language OCaml.
-Extraction "../ocaml/gen/Exn.ml" exn_mach exn_mach_clr exn_ref exn_nesting exn_max exn_clr exn_init exn_depth exn_conv_z exn_conv_n.
+Extraction "../ocaml/gen/Exn.ml" exn_mach_clr exn_ref exn_nesting exn_max exn_init exn_depth exn_conv_z exn_conv_n.
